@@ -272,3 +272,9 @@ Definition unquote (s : list byte) : option (list byte) :=
 
 Definition resolve_annotation (w : world) (P : path) (e : env) (ann : list byte) : option value :=
   match unquote ann with Some x => resolve w P e x | None => None end.
+
+(* What a generated reference means: the module executes the import line that came with
+   the reference (if any) and the annotation is then evaluated in the module's globals. *)
+Definition denotes (w : world) (P : path) (ref : list byte * option (list byte)) (v : value) : Prop :=
+  exists e, exec_all w P (match snd ref with Some s => [s] | None => [] end) = Some e
+            /\ resolve_annotation w P e (fst ref) = Some v.
